@@ -303,7 +303,7 @@ def generate(repo, out_path):
 
 if __name__ == '__main__':
     repo = sys.argv[1] if len(sys.argv) > 1 else '/repo'
-    out = sys.argv[2] if len(sys.argv) > 2 else '/verif/coq/gen/GenQueue.v'
+    out = sys.argv[2] if len(sys.argv) > 2 else os.path.join(os.path.dirname(os.path.dirname(os.path.abspath(__file__))), 'coq', 'gen', 'GenQueue.v')
     try:
         print(generate(repo, out))
     except TranslateError as e:
